@@ -207,6 +207,9 @@ class TSEngine(tf.Engine):
             if name == "set_position":
                 p = tf.deref(args[1]) if len(args) > 1 else tf.TOP
                 if p[0] == "posobj" and p[1] in ts["posobjs"]:
+                    if ts.get("dirty"):
+                        # the position is put back after a child failed (clause P looks at what is returned then)
+                        ts["rewound_after_child_error"] = t.get("ln")
                     ts["dirty"] = False
                     if ts["posobjs"][p[1]] == ENTRY:
                         ts["later_child_failed"] = None
@@ -232,6 +235,7 @@ class TSEngine(tf.Engine):
                     # relies on the failed child having restored it (clause R)
                     ts["r_viol"].append(t.get("ln"))
                 ts["parsed"] = ts.get("parsed", 0) + 1
+                ts["rewound_after_child_error"] = None      # what is returned from here on is this child's answer
                 ok_ts = copy.deepcopy(ts)
                 ok_ts["pos"] = MOVED
                 ok_ts["moved_once"] = True
